@@ -113,8 +113,10 @@ class Session:
         return '\n'.join(self.lines) + '\n'
 
 
-def diff_with_model(sess):
-    """run the model on the session transcript; returns list of (index, c_block, m_block)"""
+def diff_with_model(sess, cone=None):
+    """run the model on the session transcript; returns list of (index, c_block, m_block) that disagree in the
+    aspects named by `cone` (vlib/cone.py; None = everything)"""
+    from . import cone as _cone
     mops = core.run_model_only(sess.transcript())
     out = []
     cops = sess.ops
@@ -124,7 +126,7 @@ def diff_with_model(sess):
         if c.result is None:
             continue
         m = mops[i] if i < len(mops) else None
-        if m is None or c.canon() != m.canon():
+        if m is None or (c.canon() != m.canon() and _cone.cone_differs(cone, c.cblock(), m.cblock())):
             out.append((i, c.block(), m.block() if m else ['(model produced nothing)']))
             if len(out) >= 25:
                 break
